@@ -20,6 +20,8 @@ type CfgOpts struct {
 	Simple     bool // only literals and plain references (C19, JSON-expressible)
 	NoDynamic  bool
 	HalfTyped  int // percent chance that an attribute value is a half-typed fragment
+	Typed      bool // only type-correct expressions (no deliberate mismatches, for-expressions only under iterable types)
+	RefHeavy   bool // prefer references and nested expression forms over literals
 }
 
 type cfgWriter struct {
@@ -77,7 +79,7 @@ func (w *cfgWriter) viol() bool { return w.g.Chance(w.o.Violations) }
 
 func (w *cfgWriter) body(b m.BodyM, level int, selfOK bool) {
 	g := w.g
-	env := exprEnv{funcs: w.o.Funcs, self: b.Ext != nil && b.Ext.SelfRefs || selfOK, simple: w.o.Simple}
+	env := exprEnv{funcs: w.o.Funcs, self: b.Ext != nil && b.Ext.SelfRefs || selfOK, simple: w.o.Simple, typed: w.o.Typed, refHeavy: w.o.RefHeavy}
 	type item struct {
 		kind string
 		name string
@@ -264,9 +266,11 @@ func isIdent(s string) bool {
 // expressions
 
 type exprEnv struct {
-	funcs  map[string]m.FuncM
-	self   bool
-	simple bool
+	funcs    map[string]m.FuncM
+	self     bool
+	simple   bool
+	typed    bool
+	refHeavy bool
 }
 
 func quoteHCL(s string) string {
@@ -390,7 +394,53 @@ func (g G) exprOfType(t cty.Type, env exprEnv, depth int) string {
 		}
 		return literalText(g, g.Val(concretise(t)), true)
 	}
-	switch g.Weighted(34, 20, 8, 8, 6, 5, 5, 4, 4, 3, 3, 2, 2) {
+	// collection / object constructors with nested (typed) expressions
+	if (t.IsListType() || t.IsSetType() || t.IsTupleType() || t.IsMapType() || t.IsObjectType()) && g.Chance(45) {
+		switch {
+		case t.IsListType() || t.IsSetType():
+			n := g.Int(0, 3)
+			parts := make([]string, n)
+			for i := range parts {
+				parts[i] = g.exprOfType(t.ElementType(), env, depth-1)
+			}
+			return "[" + strings.Join(parts, ", ") + "]"
+		case t.IsTupleType():
+			var parts []string
+			for _, et := range t.TupleElementTypes() {
+				parts = append(parts, g.exprOfType(et, env, depth-1))
+			}
+			return "[" + strings.Join(parts, ", ") + "]"
+		case t.IsMapType():
+			n := g.Int(0, 3)
+			var parts []string
+			for i := 0; i < n; i++ {
+				parts = append(parts, Pick(g, []string{"k1", `"k2"`, "k3"})+" = "+g.exprOfType(t.ElementType(), env, depth-1))
+			}
+			return "{ " + strings.Join(parts, ", ") + " }"
+		default:
+			var parts []string
+			ats := t.AttributeTypes()
+			for _, n := range sortedKeys(ats) {
+				k := n
+				if !isIdent(n) {
+					k = quoteHCL(n)
+				}
+				parts = append(parts, k+" = "+g.exprOfType(ats[n], env, depth-1))
+			}
+			return "{ " + strings.Join(parts, ", ") + " }"
+		}
+	}
+	ws := []int{34, 20, 8, 8, 6, 5, 5, 4, 4, 3, 3, 2, 2}
+	if env.refHeavy {
+		ws = []int{8, 26, 12, 10, 8, 7, 6, 5, 6, 5, 4, 1, 2}
+	}
+	if env.typed {
+		ws[11] = 0 // no half-typed fragments / null
+		if !(t.IsListType() || t.IsSetType() || t.IsTupleType() || t.IsMapType() || t.IsObjectType() || t == cty.DynamicPseudoType) {
+			ws[8] = 0 // for expressions only where an iterable result is expected
+		}
+	}
+	switch g.Weighted(ws...) {
 	case 11:
 		if g.Chance(40) {
 			return Pick(g, []string{"provider::aws::f", "provider::aws::", "ns::", "ns::f", "provider::aws::fo"}) // half-typed namespaced function
@@ -419,24 +469,24 @@ func (g G) exprOfType(t cty.Type, env exprEnv, depth int) string {
 		}
 		return g.refText(env)
 	case 4: // conditional
-		return g.exprOfType(cty.Bool, env, depth-1) + " ? " + g.exprOfType(t, env, depth-1) + " : " + g.exprOfType(t, env, depth-1)
+		return par(g.exprOfType(cty.Bool, env, depth-1)) + " ? " + par(g.exprOfType(t, env, depth-1)) + " : " + par(g.exprOfType(t, env, depth-1))
 	case 5: // binary operator
 		switch {
 		case t == cty.Number || t == cty.DynamicPseudoType:
-			return g.exprOfType(cty.Number, env, depth-1) + Pick(g, []string{" + ", " - ", " * ", " / ", " % "}) + g.exprOfType(cty.Number, env, depth-1)
+			return par(g.exprOfType(cty.Number, env, depth-1)) + Pick(g, []string{" + ", " - ", " * ", " / ", " % "}) + par(g.exprOfType(cty.Number, env, depth-1))
 		case t == cty.Bool:
 			if g.Bool() {
-				return g.exprOfType(cty.Number, env, depth-1) + Pick(g, []string{" < ", " >= ", " == ", " != "}) + g.exprOfType(cty.Number, env, depth-1)
+				return par(g.exprOfType(cty.Number, env, depth-1)) + Pick(g, []string{" < ", " >= ", " == ", " != "}) + par(g.exprOfType(cty.Number, env, depth-1))
 			}
-			return g.exprOfType(cty.Bool, env, depth-1) + Pick(g, []string{" && ", " || "}) + g.exprOfType(cty.Bool, env, depth-1)
+			return par(g.exprOfType(cty.Bool, env, depth-1)) + Pick(g, []string{" && ", " || "}) + par(g.exprOfType(cty.Bool, env, depth-1))
 		}
 		return g.refText(env)
 	case 6: // unary
 		if t == cty.Bool {
-			return "!" + g.exprOfType(cty.Bool, env, depth-1)
+			return "!" + par(g.exprOfType(cty.Bool, env, depth-1))
 		}
 		if t == cty.Number {
-			return "-" + g.exprOfType(cty.Number, env, depth-1)
+			return "-" + par(g.exprOfType(cty.Number, env, depth-1))
 		}
 		return g.refText(env)
 	case 7: // parentheses
@@ -450,7 +500,7 @@ func (g G) exprOfType(t cty.Type, env exprEnv, depth int) string {
 			return "[for v in " + src + " : " + Pick(g, []string{"v", "var.a", "v.ab", `"${v}-x"`}) + Pick(g, []string{"", " if var.ab"}) + "]"
 		}
 	case 9: // index
-		return g.exprOfType(cty.List(t), env, depth-1) + "[" + Pick(g, []string{"0", "var.a", "count.index", `"k"`}) + "]"
+		return par(g.exprOfType(cty.List(t), env, depth-1)) + "[" + Pick(g, []string{"0", "var.a", "count.index", `"k"`}) + "]"
 	default: // relative traversal after call
 		return g.callText(env, depth-1) + Pick(g, []string{".a", "[0]", ".a.b"})
 	}
@@ -506,7 +556,7 @@ var typeDecls = []string{"string", "number", "bool", "any", "list(string)", "set
 
 // exprFor generates expression text for an attribute with constraint c.
 func (g G) exprFor(c m.ConsM, env exprEnv, depth int) string {
-	if !env.simple && g.Chance(6) {
+	if !env.simple && !env.typed && g.Chance(6) {
 		// deliberately mismatching expression
 		return g.exprOfType(g.Type(1), env, 1)
 	}
@@ -605,4 +655,16 @@ func (g G) braces(parts []string) string {
 		return "{\n    " + strings.Join(parts, "\n    ") + "\n  }"
 	}
 	return "{ " + strings.Join(parts, ", ") + " }"
+}
+
+// par wraps a compound operand in parentheses so that operator precedence
+// cannot re-associate what the generator meant.
+func par(s string) string {
+	if strings.ContainsAny(s, " \n?:") || strings.HasPrefix(s, "-") || strings.HasPrefix(s, "!") {
+		if strings.HasPrefix(s, "(") && strings.HasSuffix(s, ")") && strings.Count(s, "(") == 1 {
+			return s
+		}
+		return "(" + s + ")"
+	}
+	return s
 }
